@@ -568,7 +568,7 @@ func main() {
 	case "C18":
 		scens = c18Scenarios(r)
 	case "C11":
-		scens = c11Scenarios(r)
+		scens = append(c11Scenarios(r), c11PowerCycleScenarios(r)...)
 	case "C05":
 		scens = c05Scenarios(r)
 	case "C20":
